@@ -217,6 +217,19 @@ Definition dca_distance (s : dca_state) (h : Z) : dist :=
        | dc_hosts => if mem h (take_used (d_used s) dc_hosts) then REMOTE else IGNORED
        end.
 
+(* make_query_plan is a generator: membership events of other threads may run while it is being drained.  Its atomic pieces:
+   (1) the local bucket is read when the first host is asked for (state s0); (2) the remote DC names are taken from a COPY of
+   the dict -- dict.copy() is one atomic step -- after the local hosts were consumed (state s1); (3) the remote buckets are
+   read when their turn comes (modelled: all in one later state s2). *)
+Definition dca_plan3 (s0 s1 s2 : dca_state) : list Z :=
+  dca_local_part s0 ++
+  flat_map (fun dc => if dc =? d_local s1 then [] else take_used (d_used s2) (bget (d_live s2) dc)) (map fst (d_live s1)).
+
+(* without the copy the comprehension walks the live dict from state s1 to state s1': Python raises RuntimeError
+   ("dictionary changed size during iteration") when a whole DC entry was added or deleted meanwhile: None *)
+Definition dca_plan3_nocopy (s0 s1 s1' s2 : dca_state) : option (list Z) :=
+  if (length (d_live s1) =? length (d_live s1'))%nat then Some (dca_plan3 s0 s1 s2) else None.
+
 (* ------------------------------------------------------------------ the three base policies behind one interface *)
 Inductive base :=
 | BRR
@@ -355,6 +368,13 @@ Fixpoint obss_eqb (rr : bool) (a b : list (list (Z * list Z) * Z * Z)) : bool :=
   | [], [] => true
   | x :: a', y :: b' => obs_eqb rr x y && obss_eqb rr a' b'
   | _, _ => false
+  end.
+
+(* a plan drained while event `ev` is delivered right after the DC names were copied *)
+Definition check_plan3 (b : base) (e : env) (evs : list event) (ev : event) (plan : list Z) : bool :=
+  match b_run b e evs with
+  | SDCA s1 => list_eqb (dca_plan3 s1 s1 (dca_step s1 ev)) plan
+  | SRR _ => false
   end.
 
 Definition is_rr (b : base) : bool := match b with BDCA _ _ _ => false | _ => true end.
